@@ -27,6 +27,8 @@ func init() {
 		sizes := parseIntsC(c.P("sizes", "3,700"))
 		method := c.P("method", "aes-256-gcm")
 		closeBy := c.P("closeby", "app") // who ends each connection: the proxy client ("app") or the proxy server
+		// forget=1: the proxy client writes and closes at once without waiting for an answer (a
+		// fire-and-forget request); what it wrote must still reach the proxy server
 		sc := &vrt.Scenario{
 			Opt:      vrt.Options{Delay: c.P("delay", "1") == "1", HorizonNs: int64(200 * time.Second)},
 			Classify: deadlockIs("liveness: the tunnel stopped moving data on healthy connections"),
@@ -40,6 +42,8 @@ func init() {
 				}
 				var pwg sync.WaitGroup
 				proxySawEOF := 0
+				forget := c.P("forget", "0") == "1"
+				proxyGot := map[byte]int{}
 				vrt.Go("proxy-server", func() {
 					for {
 						pc, err := r.proxyL.Accept()
@@ -53,11 +57,16 @@ func init() {
 							got := 0
 							for {
 								k, err := pc.Read(b)
+								if k > 0 {
+									proxyGot[b[0]>>6] += k
+								}
 								for i := 0; i < k; i++ {
 									b[i] ^= 0x55
 								}
 								if k > 0 {
-									pc.Write(b[:k])
+									if !forget { // an answer to a peer that has already gone is a reset in TCP, which may discard what it wrote
+										pc.Write(b[:k])
+									}
 									got += k
 								}
 								if closeBy == "proxy" && got >= total {
@@ -110,6 +119,10 @@ func init() {
 							}
 							sent = append(sent, chunk...)
 						}
+						if forget {
+							conn.Close()
+							return
+						}
 						buf := make([]byte, 65536)
 						for len(got) < len(sent) {
 							k, err := conn.Read(buf)
@@ -139,6 +152,15 @@ func init() {
 				wg.Wait()
 				// closing one end is carried to the other end of the tunnel
 				pwg.Wait()
+				if forget {
+					time.Sleep(10 * time.Second) // let every relay run dry (well below the inactivity timeout)
+					pwg.Wait()
+					for i := 0; i < apps; i++ {
+						if proxyGot[byte(i)] != total {
+							vrt.Fail("bytes-exact", "proxy client %d wrote %d bytes and closed; the proxy server received %d of them", i, total, proxyGot[byte(i)])
+						}
+					}
+				}
 				vrt.Observe("apps=%d eof=%d", apps, proxySawEOF)
 			},
 		}
